@@ -3,6 +3,7 @@ package comp
 import (
 	"context"
 	"fmt"
+	"github.com/buildbarn/bb-storage/pkg/blobstore"
 	"os"
 	"path/filepath"
 	"testing"
@@ -54,7 +55,9 @@ func TestMirrorLocalStores(t *testing.T) {
 				t.Fatal(err)
 			}
 		}
-		m := mirrored.NewMirroredBlobAccess(sa.Access, sb.Access, replication.NewLocalBlobReplicator(sa.Access, sb.Access), replication.NewLocalBlobReplicator(sb.Access, sa.Access))
+		var order []string
+		ra, rb := &getRecorder{BlobAccess: sa.Access, name: "A", order: &order}, &getRecorder{BlobAccess: sb.Access, name: "B", order: &order}
+		m := mirrored.NewMirroredBlobAccess(ra, rb, replication.NewLocalBlobReplicator(sa.Access, sb.Access), replication.NewLocalBlobReplicator(sb.Access, sa.Access))
 		names := func(s *store.Store) []string {
 			// contents are probed with Get on a scratch basis: FindMissing would refresh; good enough for "has object 0"
 			o := []string{}
@@ -63,8 +66,10 @@ func TestMirrorLocalStores(t *testing.T) {
 			}
 			return o
 		}
-		for round, first := range []string{"A", "B"} {
+		for round := range []int{0, 1} {
 			a0, b0 := names(sa), names(sb)
+			first := "-"
+			order = nil
 			o := map[string]any{"ev": "Mirror", "id": fmt.Sprintf("local/%d/%s", variant, first), "op": "Get", "objs": []string{"p"}, "repl": "local", "first": first,
 				"a0": a0, "b0": b0, "missing": []string{}, "panic": "", "failed": []string{}, "named": []string{}, "lossy": true}
 			var err error
@@ -76,6 +81,11 @@ func TestMirrorLocalStores(t *testing.T) {
 				}()
 				var data []byte
 				data, err = m.Get(ctx, dg(0)).ToByteSlice(1 << 20)
+				if len(order) > 0 {
+					first = order[0] // the replica that was consulted first
+				}
+				o["first"] = first
+				o["id"] = fmt.Sprintf("local/%d/%d-%s", variant, round, first)
 				if err == nil {
 					if string(data) == string(content(0)) {
 						o["res"] = "Data"
@@ -96,4 +106,16 @@ func TestMirrorLocalStores(t *testing.T) {
 			_ = round
 		}
 	}
+}
+
+// getRecorder notes the order in which replicas are consulted.
+type getRecorder struct {
+	blobstore.BlobAccess
+	name  string
+	order *[]string
+}
+
+func (r *getRecorder) Get(ctx context.Context, d digest.Digest) buffer.Buffer {
+	*r.order = append(*r.order, r.name)
+	return r.BlobAccess.Get(ctx, d)
 }
